@@ -73,6 +73,10 @@ def gen_cfg(rng, real=False):
     else:
         molid = sorted(rng.sample(range(nmol), rng.randint(1, nmol)))
     cfg["out"] = {"molid": molid, "print": pick(), "ckpt": pick(), "xyz": pick(), "h5": h5}
+    if rng.random() < 0.08:
+        # the documented backward-compatible keys: 'thermo' (screen) and 'dump' (XYZ and HDF5 data together)
+        cfg["legacy_keys"] = True
+        cfg["out"]["xyz"] = h5["data"]
     cfg["reuse_P"] = True
     cfg["remove_com"] = None
     # resume points: 0, 1 or 2 soft/hard crashes at generated steps (only meaningful with checkpoints)
